@@ -182,6 +182,19 @@ chk("C14",
     "machine-checked proof in Coq (schedule induction; list filtering) + cadence extraction/kernel-entry hooks",
     "DESIGN.md section 6, C14")
 
+chk("C18",
+    "Coq theorems: the validator model accepts a configuration iff it satisfies the documented constraints (neither "
+    "weaker nor stricter), for every value of every field incl. wrong types, booleans, None; validation sits in the "
+    "configuration object built before the core/steps and no callback is invoked on the construction path; the "
+    "cadence hazard is excluded for every cluster_every >= 1 (from C14). Tie: Gen.Config (presence of each check in "
+    "config.py, construction order, callback calls on the construction path) + Link; one-factor-at-a-time invalid "
+    "values against the real constructor and the Coq validator; a pairwise/3-wise covering array over 14 options run "
+    "to completion and checked against the run postconditions.",
+    "Trusted: Coq kernel/vm_compute; python extractor/harness; cluster_every=0, NaN ratios and bool-as-int are outside "
+    "the documented constraints; liveness only through the covering-array runs.",
+    "machine-checked proof in Coq (boolean validator = documented predicate) + check extraction/constructor correspondence + covering-array runs",
+    "DESIGN.md section 6, C18")
+
 for pid in [f"C{i:02d}" for i in range(1, 21)]:
     if pid not in CHECKS:
         NA[pid] = "check not built yet in this session (planned in DESIGN.md section 6); not claimed"
